@@ -93,4 +93,3 @@ func trunc(s string, n int) string {
 	}
 	return s
 }
-
